@@ -35,9 +35,10 @@ func runC01(r *engine.Run) {
 	r.Rule("DEP-rehome", "a clone of a child that replaces its vanished parent (moved one or more levels up) has its Path reassigned before it is inserted, a leaf also its Prefix")
 	r.Rule("DOM-rootinstalled", "every success return of Insert and Delete that follows a trie walk is dominated by setRoot")
 	r.Rule("AGREE-childslot", "in the trie operations a child key produced by a call that was given the path remainder P[l:] is filed with PutChild under slot P[l-1] of the same path P, and a child key read with GetChild(P[l-1]) is walked (directly or after getNode) with remainder P[l:]: the path element that selects a slot is exactly the one the remainder skips")
-	r.Rule("DOM-keymatch", "the walks decide 'this node is the entry for the key' only under the comparison that establishes it: the lookup returns a leaf's value only where leaf path == remaining path tested true and a branch's own value only where len(path) == 0; deleteAtNode removes, and insertAtNode overwrites in place, the leaf at the position only where path == leaf path tested true; every walk below an extension (insert, delete, the lookup's recursion after getNode of the extension's NodeKey) is reached only where the extension's path tested equal to the path or to the matching prefix of both, and continues with exactly the rest of the path")
+	r.Rule("DOM-keymatch", "the walks decide 'this node is the entry for the key' only under the comparison that establishes it: the lookup returns a leaf's value only where leaf path == remaining path tested true and a branch's own value only where len(path) == 0; deleteAtNode removes, and insertAtNode overwrites in place, the leaf at the position only where path == leaf path tested true; every walk below an extension (insert, delete, the lookup's recursion after getNode of the extension's NodeKey) is reached only where the extension's path tested equal to the path or to the matching prefix of both, and continues with exactly the rest of the path; at an exhausted path a leaf is overwritten in place (insertAfterPathTraversal) or removed (deleteAfterPathTraversal, decided in the function or, per feasible path, at each of its call sites) only where its own path tested empty or equal to the remaining path")
 	r.Rule("AGREE-mergepath", "when delete removes the node between two path-carrying nodes the lower one moves up with path = what the vanished node consumed ++ its own whole path: the store to Path of a clone in deleteAtNode/liftOnlyChild is, piece by piece (symbolic evaluation through concat, append chains, literals and conditional extensions), the position extension's whole path or one slot element followed by the whole path of the node that moves up; an extension that adopts its child extension's NodeKey gets the fused path in the same step")
 	r.Rule("DOM-childcount", "a branch is dissolved only under the child count that justifies it: liftOnlyChild is called where GetNumChildren() of the position tested equal to 1 plus the number of children cleared on the copy handed to it; the branch is removed, or turned into a leaf carrying its value, only where the count tested 1")
+	r.Rule("AGREE-setters", "see C14: the node constructors and setters store every parameter they are given (the walks hand over the right arguments; a constructor that drops one builds another node)")
 	r.Rule("DOM-valueat", "in insertAtNode a value is stored on a newly built branch only where the key it belongs to ends there: the payload where matching prefix == path tested true, the split leaf's value where matching prefix == leaf path tested true or the leaf's path is empty")
 	r.NotDec = append(r.NotDec, "that lookups return the last stored value for every history (path arithmetic, slicing, which child is lifted)", "hex validation of Insert/Delete paths (outside the property's quantifier)")
 	exhU(r)
@@ -60,6 +61,7 @@ func runC01(r *engine.Run) {
 	domValueAt(r, "DOM-valueat")
 	agreeMergePath(r, "AGREE-mergepath")
 	domChildCount(r, "DOM-childcount")
+	agreeSetters(r, "AGREE-setters")
 }
 
 var nodeKinds = []string{"ExtensionNode", "FullNode", "LeafNode"}
@@ -484,7 +486,7 @@ func depAbsent(r *engine.Run) {
 					}
 				}
 			})
-			var leafOK, lenZero []string
+			var leafOK, lenZero, lenPos []string
 			engine.Instrs(f, func(in ssa.Instruction) {
 				if ta, ok := in.(*ssa.TypeAssert); ok && ta.CommaOk && ta.X == nodeArg {
 					if nm := namedOf(ta.AssertedType); nm != nil && nm.Obj().Name() == "LeafNode" {
@@ -498,6 +500,8 @@ func depAbsent(r *engine.Run) {
 										if ld, ok := i2.(*ssa.UnOp); ok {
 											if fa, ok := ld.X.(*ssa.FieldAddr); ok && fa.X == ssa.Value(ex) && engine.FieldOf(fa).Name() == "Path" {
 												lenZero = append(lenZero, "(c:0 == len("+engine.ValKey(ld)+"))", "(len("+engine.ValKey(ld)+") == c:0)")
+												// len(path) > 0 / 0 < len(path) tested false
+												lenPos = append(lenPos, "(c:0 < len("+engine.ValKey(ld)+"))")
 											}
 										}
 									})
@@ -521,6 +525,11 @@ func depAbsent(r *engine.Run) {
 				}
 				for _, k := range lenZero {
 					if v, had := p[k]; had && v {
+						okPath = true
+					}
+				}
+				for _, k := range lenPos {
+					if v, had := p[k]; had && !v {
 						okPath = true
 					}
 				}
